@@ -127,6 +127,13 @@ impl LengthDelimited {
 impl<B: IoBufMut> Framer<B> for LengthDelimited {
     fn enclose(&mut self, buf: &mut B) {
         let len = (*buf).buf_len();
+        // A longer payload would be announced with a truncated length and the peer
+        // would cut the stream into different frames.
+        assert!(
+            self.length_field_len >= Self::MAX_LFL || (len as u64) >> (8 * self.length_field_len) == 0,
+            "frame of {len} bytes does not fit a {}-byte length field",
+            self.length_field_len
+        );
 
         buf.reserve(self.length_field_len).expect("Reserve failed");
         buf.copy_within(0..len, self.length_field_len); // Shift existing data
